@@ -955,6 +955,13 @@ def runBuild (key cancelAt : Nat) (sched : List SchedItem) (s : State) : State :
   let s := emit (.R v) s
   emit (.Z s.taskInfos.length 0) s
 
+/-- op `K`: what the forked child of a killed build had recorded when it died — it dies before its `at`-th
+event (`at < 2` counts as 2: `B key` is always recorded) and at the latest before the commit `DE`; the child runs
+without a cancellation point and with the cancel flags of the schedule cleared -/
+def killedTrace (key at_ : Nat) (sched : List SchedItem) (s : State) : List Tok :=
+  (((runBuild key 0 (sched.map fun i => { i with cancel := false }) s).trace.reverse).takeWhile
+    (fun t => match t with | .DE => false | _ => true)).take (max at_ 2 - 1)
+
 /-- `newEngine(true)`: a new `BuildEngine` attached to the persisting store (`attachDB` loads the epoch) -/
 def newEngine (s : State) : State :=
   { s with hasDB := true, ruleInfos := [], taskInfos := [], ruleInfosToScan := [], inputRequests := [],
